@@ -1396,26 +1396,10 @@ func c42Scenarios(r *mc.R) []*c42Scenario {
 				[]string{"inc:A", "incx:A", "incd:A", "inc:B", "revert", "final", "restart", "add:A2", "add:A0h"}),
 		},
 		{
-			// full pool (capacity 3): every further add overflows; replacements, eviction by priority, fee moves, tip, restarts
-			name: "evict", slots: 3, depthQ: 2, depthT: 4,
-			init: []string{"add:A0", "add:B0", "add:B1"},
-			ops: mc.Pick(r,
-				[]string{"add:A1", "add:A0h", "add:A0m", "add:B0h", "add:B1h", "add:C0", "fee:1500", "tip:95", "restart"},
-				[]string{"add:A1", "add:A0h", "add:A0m", "add:B2", "add:B0h", "add:B1h", "add:C0", "fee:800", "fee:1500", "tip:95", "restart"}),
-		},
-		{
-			// one inclusion deep: a second inclusion, reorg back out, finality then reorg, restart with a populated limbo
-			name: "limbo2", slots: 4, depthQ: 2, depthT: 4,
-			init: []string{"add:A0", "add:A1", "add:B0", "inc:A"},
-			ops: mc.Pick(r,
-				[]string{"inc:A", "revert", "final", "restart", "inc:B"},
-				[]string{"inc:A", "incx:A", "incd:A", "inc:B", "revert", "final", "restart", "add:A2"}),
-		},
-		{
 			// a transaction that sits in the limbo as the only trace of its account: reorg re-injects it as the sole
 			// pooled transaction, the account extends the sequence, it is included again, more is submitted on a
 			// drained balance, restart
-			name: "reinject", slots: 4, depthQ: 3, depthT: 5,
+			name: "reinject", slots: 4, depthQ: 2, depthT: 5,
 			init: []string{"add:A0", "inc:A"},
 			ops: mc.Pick(r,
 				[]string{"revert", "add:A1", "incd:A", "add:A2h", "restart"},
@@ -1430,8 +1414,24 @@ func c42Scenarios(r *mc.R) []*c42Scenario {
 				[]string{"add:A1", "inc:A", "incd:A", "add:A2", "add:A2h", "add:A0h", "revert", "restart"}),
 		},
 		{
+			// full pool (capacity 3): every further add overflows; replacements, eviction by priority, fee moves, tip, restarts
+			name: "evict", slots: 3, depthQ: 2, depthT: 4,
+			init: []string{"add:A0", "add:B0", "add:B1"},
+			ops: mc.Pick(r,
+				[]string{"add:A1", "add:A0h", "add:A0m", "add:B0h", "add:B1h", "fee:1500", "restart"},
+				[]string{"add:A1", "add:A0h", "add:A0m", "add:B2", "add:B0h", "add:B1h", "add:C0", "fee:800", "fee:1500", "tip:95", "restart"}),
+		},
+		{
+			// one inclusion deep: a second inclusion, reorg back out, finality then reorg, restart with a populated limbo
+			name: "limbo2", slots: 4, depthQ: 2, depthT: 4,
+			init: []string{"add:A0", "add:A1", "add:B0", "inc:A"},
+			ops: mc.Pick(r,
+				[]string{"inc:A", "revert", "final", "restart", "inc:B"},
+				[]string{"inc:A", "incx:A", "incd:A", "inc:B", "revert", "final", "restart", "add:A2"}),
+		},
+		{
 			// gapped reorder buffer (A may park one transaction), replacement inside a sequence, restart drops the buffer
-			name: "gapped", slots: 4, depthQ: 3, depthT: 4,
+			name: "gapped", slots: 4, depthQ: 2, depthT: 4,
 			init: []string{"add:A1h"},
 			ops: mc.Pick(r,
 				[]string{"add:A0", "add:A1", "add:A2", "inc:A", "restart"},
